@@ -29,6 +29,10 @@ lists, in this stream, only the monitors of the still-registered cells (what the
 code the entries a dead cell left behind stay in the pool until its name is used again) and counts a layer's hooks
 without those left-overs.  Programs then register cells again, preferably under the names the dead cells had, and the
 real trainer is judged against the specification stream exactly as in the other streams.
+
+Isolation twin (fifth stream, see `iso_stream`): WHAT the monitors of a cell record, and the update computed from it, is
+compared between one trainer holding several cells (registered with per-cell keyword overrides of the hyperparameters) and
+one trainer per cell on an identically built twin layer fed the same inputs — an oracle independent of the driver.
 """
 from __future__ import annotations
 
@@ -76,6 +80,10 @@ SPEC = {
         "layers: connection / neuron names are per layer; the model's alias search has a switch for the 'other layer' test "
         "(LAYER_FILTER in this file: True = after repair D36, the default; False = the old vacuous test)",
         "D18 and its single-trainer form (the same cell registered twice, one registration being MSTDPET) are a known finding",
+        "isolation twin: a registration (register_cell) is followed by clear() on both sides (a pooled monitor shared with an "
+        "earlier cell legitimately has a longer history than a fresh one); every cell is registered at most once at a time; the "
+        "per-cell trainers' updates are applied by calling each distinct updater of the twin layer once (what "
+        "CellTrainer.update does); trainers that need kernels, learned delays or a homeostatic target are not in this stream",
     ],
 }
 DRIVER = "drivers/C15.lean"
@@ -973,6 +981,331 @@ def dead_layer_probe(ex) -> None:
                       "named_cells": ncells, "named_monitors": nmons, "raised": raised}))
 
 
+# ---------------------------------------------------------------------------------------------
+# isolation twin: what a cell's monitors RECORD (and the update computed from it) does not depend on its neighbours
+#
+# The property's second sentence: registering / removing another cell never redirects or corrupts recording for a cell,
+# "even one that shares a pooled monitor".  Oracle (independent of the driver, a twin run): two identical layers (one a
+# built the same way from the same seed) receive the same inputs.  On the first, ONE trainer holds
+# all the cells (their monitors are pooled wherever the trainer decides they may be); on the second, every cell has a
+# trainer of its own with the same effective hyperparameters (nothing to pool with).  After every operation every monitor
+# of every registered cell must hold the same data on both sides, a trainer step must succeed on both sides or on neither,
+# and the connection weights after the update must agree.  Cells are registered with per-cell keyword overrides of the
+# trainer's hyperparameters (one key at a time — systematically, every key of every trainer class — and random pairs),
+# registrations change mid-run (del_cell, re-registration in another order / with other overrides; every change of the
+# registrations is followed by `clear` on both sides so a pooled monitor's longer history is not counted as a difference).
+
+KEY_ISO = "C15:neighbour-changes-what-a-cell-records"
+ISO_TOPOS = ["0:0:0,0:1:0", "0:0:0,0:0:1", "0:0:0,0:0:1,0:1:0,0:1:1", "0:0:0,0:1:0,0:2:0"]
+
+
+def iso_classes():
+    """every shipped IndependentCellTrainer whose constructor takes only learning rates / time constants (+ defaults):
+    name -> (class, float keys, choice keys {key: values}, call arguments)"""
+    import importlib
+    import inspect
+    import pkgutil
+    import inferno.learn as L
+    import inferno.learn.trainers as LT
+    found = {}
+    mods = [L] + [importlib.import_module(f"{LT.__name__}.{m.name}") for m in pkgutil.iter_modules(LT.__path__)]
+    for mod in mods:
+        for name, cls in vars(mod).items():
+            if inspect.isclass(cls) and issubclass(cls, L.IndependentCellTrainer) and cls is not L.IndependentCellTrainer:
+                found.setdefault(name, cls)
+    out = {}
+    for name, cls in sorted(found.items()):
+        sig = inspect.signature(cls.__init__)
+        req = [p.name for p in list(sig.parameters.values())[1:]
+               if p.default is inspect.Parameter.empty and p.kind is inspect.Parameter.POSITIONAL_OR_KEYWORD]
+        if not req or not all(re.match(r"(lr|tc)_", k) for k in req):
+            continue                              # kernels, homeostasis: other streams
+        if name.startswith("DelayAdjusted"):
+            continue                              # need learned delays (SPEC["assumptions"]: no learned delays)
+        choice = {}
+        if "trace_mode" in sig.parameters:
+            choice["trace_mode"] = ["cumulative", "nearest"]
+        if "inplace" in sig.parameters:
+            choice["inplace"] = [False, True]
+        fwd = inspect.signature(cls.forward)
+        call = (1.0,) if "signal" in fwd.parameters else ()
+        out[name] = (cls, req, choice, call)
+    return out
+
+
+def iso_value(rng, key, other=None):
+    """a hyperparameter value (dyadic / small integers), different from `other`"""
+    for _ in range(20):
+        if key.startswith("tc_"):
+            # (the triplet rules require slow > fast)
+            v = float(rng.choice([5, 10, 15, 20, 30] if key.endswith("_fast") else [40, 60, 100, 120, 150]
+                                 if key.endswith("_slow") else [10, 15, 20, 30, 40, 60]))
+        else:
+            mag = rng.choice([0.0625, 0.125, 0.25, 0.5])
+            neg = ("pre" in key) != (rng.random() < 0.2)        # mostly the conventional sign, sometimes the opposite one
+            v = -mag if neg else mag
+        if other is None or v != other:
+            return v
+    return v
+
+
+def iso_case(rng, cname, info, override_keys=None, lifecycle=True, nsteps=10, topo=None):
+    """one twin program: {'cls', 'topo', 'hyper', 'regs': [[name, cell index, overrides]], 'ops': [...]}"""
+    _, fkeys, choice, _ = info
+    topo = topo or rng.choice(ISO_TOPOS)
+    ncells = len(topo.split(","))
+    hyper = {k: iso_value(rng, k) for k in fkeys}
+    for k, vals in choice.items():
+        hyper[k] = rng.choice(vals)
+    order = list(range(ncells))
+    rng.shuffle(order)
+    allkeys = list(fkeys) + list(choice)
+
+    def overrides(keys):
+        o = {}
+        for k in keys:
+            o[k] = iso_value(rng, k, hyper[k]) if k in fkeys else rng.choice([v for v in choice[k] if v != hyper[k]])
+        return o
+
+    regs = []
+    for j, c in enumerate(order):
+        if j == 0:
+            keys = []
+        elif override_keys is not None:
+            keys = override_keys if j == 1 else rng.choice([[], override_keys])
+        else:
+            keys = rng.sample(allkeys, rng.choice([0, 1, 1, 2]))
+        regs.append([f"x{j}", c, overrides(keys)])
+    ops = [f"reg {j}" for j in range(len(regs))]
+    steps = 0
+    while steps < nsteps:
+        r = rng.random()
+        if r < 0.62 or not lifecycle:
+            ops.append("lstep")
+            steps += 1
+            if not lifecycle and steps == nsteps // 2:
+                ops.append("tstep")
+        elif r < 0.72:
+            ops.append("tstep")
+        elif r < 0.78:
+            ops.append(f"ttrain {b(rng.random() < 0.5)}")
+        elif r < 0.84:
+            ops.append(f"ltrain {b(rng.random() < 0.5)}")
+        elif r < 0.92:
+            # a registration leaves and comes back (later than its neighbours: the pool is searched in another order)
+            j = rng.randrange(len(regs))
+            ops += [f"del {j}", "lstep", f"reg {j}"]
+            steps += 1
+        else:
+            ops.append("clear")
+    ops += ["lstep", "tstep"]
+    return {"twin": True, "cls": cname, "topo": topo, "hyper": hyper, "regs": regs, "ops": ops}
+
+
+class IsoRun:
+    """both sides of the twin"""
+
+    def __init__(self, case, info):
+        self.case, (self.cls, _, _, self.call) = case, info
+        r, r2 = Real(), Real()
+        r._begin(case["topo"])
+        r2._begin(case["topo"])                   # (same seed: the same weights)
+        self.r = r
+        self.A, self.B = r.layers[0], r2.layers[0]
+        self.shared = self.cls(**case["hyper"])
+        self.solo = {}
+        self.live = []
+        self.gen = torch.Generator().manual_seed(4711)
+
+    def cell(self, layer, idx):
+        _, c, n = self.r.pairs[idx]
+        return layer.cells_[f"c{c}"][f"n{n}"]
+
+    def data(self, mon):
+        out = []
+        for f in (mon.peek, mon.dump):
+            try:
+                x = f()
+            except Exception as e:  # noqa: BLE001
+                out.append(type(e).__name__)
+                continue
+            out.append(None if x is None else x.detach().clone().double())
+        return out
+
+    def step(self, op):
+        """-> None or (what, expected (own trainer), observed (shared trainer))"""
+        tok = op.split()
+        regs = self.case["regs"]
+
+        def both(fa, fb, what):
+            ea = eb = None
+            try:
+                fb()
+            except Exception as e:  # noqa: BLE001
+                eb = f"{type(e).__name__}: {str(e)[:160]}"
+            try:
+                fa()
+            except Exception as e:  # noqa: BLE001
+                ea = f"{type(e).__name__}: {str(e)[:160]}"
+            if (ea is None) != (eb is None):
+                return (what + " raises on one side only", eb or "succeeds", ea or "succeeds")
+            return None
+
+        if tok[0] == "reg":
+            j = int(tok[1])
+            name, c, ov = regs[j]
+            self.solo[j] = self.cls(**self.case["hyper"])
+            self.solo[j].train(self.shared.training)
+            self.live.append(j)
+            d = both(lambda: self.shared.register_cell(name, self.cell(self.A, c), **ov),
+                     lambda: self.solo[j].register_cell(name, self.cell(self.B, c), **ov), f"register_cell {name}")
+            # (a pooled monitor the newcomer shares has a longer history than a fresh one: start both sides afresh)
+            d = d or both(lambda: self.shared.clear(), lambda: [t.clear() for t in self.solo.values()], "clear")
+        elif tok[0] == "del":
+            j = int(tok[1])
+            name = regs[j][0]
+            self.live.remove(j)
+            solo = self.solo.pop(j)
+            d = both(lambda: self.shared.del_cell(name), lambda: solo.del_cell(name), f"del_cell {name}")
+            del solo
+        elif tok[0] == "lstep":
+            conns = sorted({c for _, c, _ in self.r.pairs})
+            inputs = {f"c{c}": ((torch.rand(1, self.r.nin[c], generator=self.gen) < 0.5).float(),) for c in conns}
+            d = both(lambda: self.A(inputs), lambda: self.B({k: (v[0].clone(),) for k, v in inputs.items()}), "layer step")
+        elif tok[0] == "tstep":
+            def fb():
+                for j in self.live:
+                    self.solo[j](*self.call)
+                # (CellTrainer.update applies every distinct updater of its cells ONCE, whoever accumulated into it)
+                ups = []
+                for j in self.live:
+                    up = self.cell(self.B, self.case["regs"][j][1]).updater
+                    if up is not None and not any(up is u for u in ups):
+                        ups.append(up)
+                for up in ups:
+                    up()
+
+            def fa():
+                self.shared(*self.call)
+                self.shared.update()
+            d = both(fa, fb, "trainer step + update")
+        elif tok[0] == "ttrain":
+            d = both(lambda: self.shared.train(tb(tok[1])), lambda: [t.train(tb(tok[1])) for t in self.solo.values()],
+                     "trainer.train")
+        elif tok[0] == "ltrain":
+            d = both(lambda: self.A.train(tb(tok[1])), lambda: self.B.train(tb(tok[1])), "layer.train")
+        elif tok[0] == "clear":
+            d = both(lambda: self.shared.clear(), lambda: [t.clear() for t in self.solo.values()], "clear")
+        else:
+            raise AssertionError(op)
+        return d or self.compare()
+
+    def compare(self):
+        def close(x, y):
+            if not (torch.is_tensor(x) and torch.is_tensor(y)):
+                return not torch.is_tensor(x) and not torch.is_tensor(y) and x == y
+            return x.shape == y.shape and bool(torch.allclose(x, y, rtol=1e-6, atol=1e-7, equal_nan=True))
+        show = lambda x: x if not torch.is_tensor(x) else [round(v, 6) for v in x.flatten().tolist()[:12]]
+        for j in self.live:
+            name = self.case["regs"][j][0]
+            try:
+                got = dict(self.shared.named_monitors_of(name))
+                want = dict(self.solo[j].named_monitors_of(name))
+            except Exception as e:  # noqa: BLE001
+                return (f"listing the monitors of cell {name} raises", "a listing", f"{type(e).__name__}: {e}")
+            if sorted(got) != sorted(want):
+                return (f"monitor names of cell {name}", sorted(want), sorted(got))
+            for mn in sorted(want):
+                if got[mn].registered != want[mn].registered:
+                    return (f"monitor {name}.{mn}: registered", want[mn].registered, got[mn].registered)
+                for what, x, y in zip(("peek()", "dump()"), self.data(got[mn]), self.data(want[mn])):
+                    if not close(x, y):
+                        return (f"monitor {name}.{mn}: {what}", show(y), show(x))
+        for (_, c, _) in self.r.pairs:
+            wa, wb = self.A.connections_[f"c{c}"].weight, self.B.connections_[f"c{c}"].weight
+            if not close(wa.detach().double(), wb.detach().double()):
+                return (f"weights of connection c{c}", show(wb.detach().double()), show(wa.detach().double()))
+        return None
+
+
+def iso_run(case, classes):
+    """first difference between the shared trainer and the per-cell trainers: (op index, what, expected, observed) or None;
+    also whether anything was recorded"""
+    run = IsoRun(case, classes[case["cls"]])
+    recorded = False
+    for i, op in enumerate(case["ops"]):
+        d = run.step(op)
+        if d is not None:
+            return (i,) + d, recorded
+        if op == "lstep" and not recorded:
+            recorded = any(m.peek() is not None and bool(m.peek().abs().sum() > 0) for m in run.shared.monitors)
+    return None, recorded
+
+
+def iso_shrink(case, classes, max_tries=40):
+    cur = dict(case)
+    tries = 0
+    changed = True
+    while changed and tries < max_tries:
+        changed = False
+        nreg = len(cur["regs"])
+        for i in range(len(cur["ops"]) - 1, nreg - 1, -1):
+            cand = dict(cur, ops=cur["ops"][:i] + cur["ops"][i + 1:])
+            tries += 1
+            if tries > max_tries:
+                break
+            try:
+                d, _ = iso_run(cand, classes)
+            except Exception:  # noqa: BLE001
+                continue
+            if d is not None:
+                cur, changed = dict(cand, ops=cand["ops"][: d[0] + 1]), True
+                break
+    return cur
+
+
+def iso_stream(ctx, ex, thorough):
+    rng = ctx.rng
+    classes = iso_classes()
+    cases = []
+    for cname, info in classes.items():
+        _, fkeys, choice, _ = info
+        for k in list(fkeys) + list(choice):
+            # the second cell overrides exactly this key: everything else about the two cells' monitors coincides
+            # (once with cells that share their neuron group, once with cells that share their connection)
+            for topo in ISO_TOPOS[:2]:
+                cases.append(iso_case(rng, cname, info, override_keys=[k], lifecycle=False, nsteps=6, topo=topo))
+        for _ in range(6 if not thorough else 40):
+            cases.append(iso_case(rng, cname, info, nsteps=10))
+    found = 0
+    for case in cases:
+        ex.count("isolation_twin_class", case["cls"])
+        ex.count("isolation_twin_overrides", "+".join(sorted({k for _, _, o in case["regs"] for k in o})) or "none")
+        ex.evaluations += len(case["ops"])
+        d, recorded = iso_run(case, classes)
+        if recorded:
+            ex.nontriv(("twin", case["cls"], case["topo"], str(case["hyper"]), str(case["regs"]), tuple(case["ops"])))
+        if d is None or found >= 3:
+            continue
+        found += 1
+        small = iso_shrink(dict(case, ops=case["ops"][: d[0] + 1]), classes)
+        d2, _ = iso_run(small, classes)
+        d2 = d2 or d
+        info = dict(small, index=d2[0], what=d2[1], expected=d2[2], observed=d2[3],
+                    note=("twin run: `observed` = one trainer of class `cls` (hyperparameters `hyper`) holding every registration "
+                          "of `regs` ([name, cell index in `topo`, per-cell keyword overrides]); `expected` = the same cell "
+                          "registered alone with a trainer of its own (same hyperparameters and overrides) on an identical "
+                          "twin of the layer fed the same inputs; ops: reg j / del j = register_cell / del_cell of regs[j], "
+                          "lstep, tstep = trainer() + update(), ttrain / ltrain, clear"))
+        ex.findings.append(Finding(
+            kind="spec", key=KEY_ISO,
+            what=(f"{small['cls']} on {small['topo']}: after op #{d2[0]} `{small['ops'][d2[0]]}` {d2[1]}: alone `{d2[2]}`, "
+                  f"next to its neighbours `{d2[3]}`"),
+            case=info))
+    ex.extra["isolation_twin_classes"] = sorted(classes)
+    return cases
+
+
 def explore(ctx) -> Exploration:
     torch.set_default_dtype(torch.float32)
     ex = Exploration()
@@ -1007,6 +1340,7 @@ def explore(ctx) -> Exploration:
             ex.count("reregistration_after_cell_death", reregistration_kind(c))
     run_cases(ctx, cases, ex)
     dead_layer_probe(ex)
+    iso = iso_stream(ctx, ex, thorough)
     ex.rule = ("cases = corpus + 4 scripted scenarios (D17: deleting one of two cells that share pooled monitors, on shared neuron "
                "and on shared connection; D18: second trainer on a cell, then its deletion) + seeded random programs (length <= 40) "
                "over the ten operations with 1-3 trainers (STDP, MSTDP, MSTDPET) on Biclique layers with 2-4 cells sharing "
@@ -1018,16 +1352,31 @@ def explore(ctx) -> Exploration:
                "layer is dropped and collected WITHOUT del_cell and a fresh layer takes its slot, `recell c`: a custom Layer "
                "deletes one cell, it is collected, the layer re-creates it — after which cells are registered again, three "
                "times out of four under a name a dead cell had; the driver sees del_cell for every registration of a dead "
-               "cell, the real trainer's listings are restricted to still-registered cells")
+               "cell, the real trainer's listings are restricted to still-registered cells; "
+               "(fifth stream, isolation twin — judged by a twin run, not by the driver) for every shipped IndependentCellTrainer "
+               "whose constructor takes only learning rates / time constants (STDP, StableSTDP, TripletSTDP, StableTripletSTDP, "
+               "MSTDP, MSTDPET): one trainer holding 2-4 cells of a Biclique, registered with per-cell keyword overrides (every "
+               "hyperparameter key alone, on cells sharing their neuron group and on cells sharing their connection; random "
+               "pairs; opposite-sign learning rates; trace_mode / inplace), against one trainer PER CELL on an identically built "
+               "twin layer fed the same inputs; after every op (lstep, trainer() + update(), train/eval of trainer and layer, "
+               "clear, del_cell + later re-registration) every monitor's peek() / dump(), its registered flag, the success of "
+               "the trainer step and the connection weights must agree")
     ex.samples = [scripted[0], free[0], prone[0], sdeath[0], death[0]]
     ex.extra["streams"] = {"corpus": ncorpus, "scripted": len(scripted), "random_D18_free": len(free),
                            "random_D18_prone": len(prone), "random_two_layers": len(two),
-                           "scripted_cells_die_unremoved": len(sdeath), "random_cells_die_unremoved": len(death)}
+                           "scripted_cells_die_unremoved": len(sdeath), "random_cells_die_unremoved": len(death),
+                           "isolation_twin": len(iso)}
     ex.extra["model_layer_filter"] = LAYER_FILTER
     return ex
 
 
 def replay(ctx, data) -> int:
+    fi = data.get("failing_input") or data
+    if isinstance(fi, dict) and fi.get("twin"):
+        torch.set_default_dtype(torch.float32)
+        d, _ = iso_run(fi, iso_classes())
+        print("DISAGREEMENT" if d else "agrees", d or "")
+        return 1 if d else 0
     case = data.get("failing_input", {}).get("ops") or data.get("ops")
     if not case:
         print("replay file has no op sequence (proof/tie breakage without failing input):", data.get("broken"))
